@@ -80,6 +80,14 @@ def gen_case(rng, cfg, big=False):
             fno[0] += 1
             ops.append("%s n%d %s %s" % (op, fno[0], recipe, part))
             this.append(recipe)
+        if s == 0:
+            # the same bytes cleaned twice in one session, once in one call and once in pieces with an EMPTY piece in the middle
+            # while the chunker holds a partial chunk (seed C03-r3m1 needs exactly that): the two pointers are equal
+            r2 = fresh(5 * target + 1234)
+            fno[0] += 2
+            ops.append("f n%d %s all" % (fno[0] - 1, r2))
+            ops.append("f n%d %s 100+0+1+%d" % (fno[0], r2, 3 * target))
+            this.append(r2)
         ops.append("E")
         if salt is None:
             catalog += this
